@@ -25,8 +25,9 @@ RULE = ("real HasTraits classes for the four prefix styles (same name, explicit 
         "case line")
 TRUSTED = [
     "traits_listener.py (ListenerParser/ListenerItem, 1300 lines) is abstracted to: a forwarder of (o, n) is hooked "
-    "on at most one object, re-hooked by every change of o.d, and hooking on X succeeds iff X.base_trait(target) "
-    "resolves; the abstraction is tied to the code by comparing ListenerItem.active after every operation",
+    "on at most one object, re-hooked by every change of o.d, and hooking on an object always succeeds (since fix "
+    "bead785 a DelegationError of base_trait is caught); the abstraction is tied to the code by comparing "
+    "ListenerItem.active and the number of swallowed handler exceptions after every operation",
     "validators are parameters (validator number, operation index, value); the driver instantiates id / mod7 / "
     "rejneg / failat",
     "values are small ints (identity == equality, so the identity test of setattr_trait and the equality test of "
@@ -35,8 +36,9 @@ TRUSTED = [
 ASSUMPTIONS = [
     "every declared attribute of every object carries an on_trait_change and an observe handler (so the notifier "
     "branches of setattr_trait are always taken)",
-    "the delegate graph stays acyclic (reading through a cycle crashes the interpreter: finding F21, probed in a "
-    "subprocess only); operations that would close a cycle are skipped on both sides",
+    "the delegate graph stays acyclic (reading through a cycle raises RecursionError since fix ec4908f of finding "
+    "F21 — before, it killed the interpreter — and is probed in a subprocess); operations that would close a "
+    "cycle are skipped on both sides",
     "attribute names are identifiers (no ':' '*' '.', not ending in '_'); one delegate reference attribute `d` per class",
     "objects are kept alive for the whole history (weak references of the listener machinery never die)",
 ]
@@ -51,13 +53,14 @@ def corpus():
         mk("pre-D", "id,id", "sw 0 2;st 2 p_x 5;st 2 x 6;st 0 x 7"),
         mk("star-D", "id,id", "sw 0 2;st 2 q_x 5;st 2 x 6;st 0 x 7;st 0 y 1;st 2 q_y 2;dl 0 y;st 2 q_y 3"),
         mk("star-nopfx", "id,id", "sw 0 1;st 1 x 5;st 0 x 6"),
-        # F18: chain hooked top-down through a None delegate (Lean: Witness.topDown)
+        # F18 (fixed, regression case): chain hooked top-down through a None delegate (Lean: C11_notify_top_down)
         mk("same-D", "id,id", "sw 0 1;sw 1 2;st 2 x 5"),
         # F19: '*' chain, different class prefixes: write and read name different attributes (Lean: Witness.starPool)
         mk("star2-diff", "id,id", "sw 1 2;sw 0 1;st 0 x 5;rd 0 x"),
         # F20: DelegatesTo through a broken PrototypedFrom link (Lean: Witness.protoPool)
         mk("D-P-T", "id,id", "sw 1 2;sw 0 1;st 1 x 7;st 0 x 9;rd 0 x"),
-        # `del` of a prototyped value raising after it deleted: the read-back fails / the listener re-hook fails
+        # `del` of a prototyped value raising after it deleted: the read-back fails (Lean: Witness.brokenDel);
+        # second case: before fix bead785 the listener re-hook failed, now the `del` succeeds
         mk("star2-deep", "id,id", "sw 2 3;sw 1 2;sw 0 1;st 0 x 5;sw 2 N;dl 0 x;rd 0 x"),
         mk("star2-deep", "id,id", "sw 2 3;sw 1 2;sw 0 1;st 1 a_x 6;st 0 x 5;sw 2 N;dl 0 x;rd 0 x;dl 0 x"),
         # prototype life cycle
